@@ -195,12 +195,36 @@ func vfcRun(scn *vfcScn) (*vfcResult, error) {
 	if txn {
 		mtag = "t"
 	}
+	// settle: wait until the nodes have consumed what the client sent for this
+	// attempt. A successful attempt has read every reply, so everything was
+	// processed. A failed one may never have sent a node-batch at all (getConn on
+	// a node object closed by a refresh): after a short grace period what has
+	// not arrived is recorded as unsent ("U").
+	settle := func(at *vfcAttempt, failed bool) {
+		if !failed {
+			if !d.waitSeen(at.IDs, 2*time.Second) {
+				res.Notes = append(res.Notes, "quiesce-timeout")
+			}
+			return
+		}
+		if d.waitSeen(at.IDs, 150*time.Millisecond) {
+			return
+		}
+		d.mu.Lock()
+		for _, id := range at.IDs {
+			if !d.seen[id] {
+				if !txn {
+					d.trace = append(d.trace, fmt.Sprintf("U:%d:%d", at.Batch, id))
+				}
+				res.Notes = append(res.Notes, "unsent")
+			}
+		}
+		d.mu.Unlock()
+	}
 	finish := func(at *vfcAttempt, err error) {
 		at.OK = err == nil
 		at.Err = vfcErrClass(err)
-		if !d.waitSeen(at.IDs, 2*time.Second) {
-			res.Notes = append(res.Notes, "quiesce-timeout")
-		}
+		settle(at, err != nil)
 		st := "ok"
 		if err != nil {
 			st = "er"
@@ -282,9 +306,7 @@ func vfcRun(scn *vfcScn) (*vfcResult, error) {
 		// a failed run: what is still in flight is never received (the sender
 		// closes the run); wait until the servers have consumed what was sent
 		for _, f := range inflight {
-			if !d.waitSeen(f.at.IDs, 2*time.Second) {
-				res.Notes = append(res.Notes, "quiesce-timeout")
-			}
+			settle(f.at, true)
 			f.at.Err = "abandoned"
 			res.Attempts = append(res.Attempts, *f.at)
 		}
@@ -453,6 +475,8 @@ func vfcRouteSplit(scn *vfcScn, res *vfcResult) (int, bool) {
 				if o := p[4]; o == "x" || o == "e" {
 					delete(out, atoi(p[2]))
 				}
+			case "U":
+				delete(out, atoi(p[2]))
 			case "X":
 				out = map[int]ent{}
 			}
